@@ -206,6 +206,13 @@ def run_engine_batch(ctx, args, tag):
                               {"input": {"patches": c.get("patches"), "src": c.get("src")}})
             else:
                 ctx.broken("harness", "the implementation panicked on a generated case (see property C08): " + c.get("note", "")[-300:])
+    if stats.get("skip:front-reject"):
+        rej = [json.loads(l) for l in open(os.path.join(d, "engine.inputs.jsonl")) if "skipped: front-reject:" in l]
+        for c in rej[:3]:
+            ctx.violation("the patch is refused for a \"...\" that stands where an elision may stand (a line of its own in a statement or "
+                          "field list, a whole argument or element): by its text every side is well-formed once the elisions are named, "
+                          "the front end says: " + c.get("note", "")[-200:],
+                          {"input": {"id": c.get("id"), "patches": c.get("patches"), "src": c.get("src")}})
     if stats.get("hang"):
         hung = [json.loads(l) for l in open(os.path.join(d, "engine.inputs.jsonl")) if "hang: the case" in l]
         for c in hung[:2]:
@@ -298,11 +305,12 @@ def engine_projection(ctx, results, what_checks):
             ctx.count("out_of_model:site-inside-import-declaration")
             continue
         ctx.count("front:" + str(impl.get("front")))
-        if impl.get("front") == "0" and ("content" in what_checks or "where" in what_checks):
+        if impl.get("front") == "0":
             # the pattern the engine compiled is not what the patch text denotes (front end: sectioning, '-'/'+' split,
-            # "..." rewriting, parsing); decided against an independent parse of the generator's own text of each side
+            # "..." rewriting, parsing, where each elision is recorded to stand); decided against an independent parse of
+            # the text of each side of each change.  Every statement about what a patch does is about the patch as written.
             ctx.violation("the pattern compiled from the patch differs from the pattern its text denotes (independent parse of each "
-                          "side of the change)", replay_payload(inp, impl, model, {"problems": ["front-end: compiled pattern differs from the patch text"]}))
+                          "side of each change; package clause, imports and the place of every elision compared with the text)", replay_payload(inp, impl, model, {"problems": ["front-end: compiled pattern differs from the patch text"]}))
         ctx.count("typed:" + str(model.get("typed")))
         if model.get("typed") == "0" and "where" in what_checks:
             # the theorems about instances assume well-typed trees in parser normal form (Spec/Typing.lean)
@@ -1455,6 +1463,16 @@ def c07(ctx):
         for fname, deco in BYTE_DECORATIONS:
             scen.append(Scenario(f"valid{k}-{fname}", [vp], {"m.go": deco(vs), "other.go": "package a\n\nfunc g() { foo(7) }\n"},
                                  "valid rewrite in a file with " + fname))
+    # a refused file among files whose results are large (several KiB each, before and after it on the command line): what
+    # is emitted for the files reported fine is emitted whole, whatever happens to the run as a whole
+    def big(tag, n):
+        return "package a\n" + "".join(f"\nfunc {tag}{i}(count int) int {{\n\treturn foo(count + {i}) // {tag}\n}}\n" for i in range(n))
+    for k in (0, 3, 6, 8):
+        patch, src = MISFIT[k]
+        for n in ((40,) if ctx.tier == "quick" else (40, 70, 300)):
+            scen.append(Scenario(f"misfit{k}-among-large-{n}", [patch],
+                                 {"a_large.go": big("alpha", n + rng.randint(0, 9)), "m.go": src, "z_large.go": big("zulu", n + rng.randint(0, 9))},
+                                 "misfit among files with large results"))
     scen += corpus_scenarios("C07")
     optsets = [[], ["si"], ["print"], ["print", "si"], ["diff"], ["diff", "si"]]
     run_scenarios(ctx, scen, optsets, {"write", "stdout", "exit"}, post)
